@@ -178,10 +178,14 @@ impl<O> ShareObserverThreads<O> {
   }
 
   fn is_skipping(&self) -> bool {
+    #[cfg(feature = "verif_hooks")]
+    crate::verif::yield_point("skip_flag_load");
     self.skip.load(Ordering::Relaxed)
   }
 
   fn stop_skipping(&self) {
+    #[cfg(feature = "verif_hooks")]
+    crate::verif::yield_point("skip_flag_store");
     self.skip.store(false, Ordering::Relaxed)
   }
 }
